@@ -161,11 +161,14 @@ def run(case):
              [bool(x) for x in np.asarray(C.materialize(mask)).ravel()])
     if form != "badunit":
         res["model_req"] = {"op": "rebin", "shape": list(shape),
-                            "data": ["nan" if i in set(case["nans"]) else frac(float(np.asarray(d).ravel()[i])) for i in range(len(case["data"]))],
+                            "data": ["nan" if i in set(case["nans"]) else case["data"][i] for i in range(len(case["data"]))],
                             "mask": mjson, "binShape": [frac(b) for b in bins], "operation": case["op"],
                             "ignoresMask": case["ignores"], "handleMask": case["handle"]}
     else:
         res["model_req"] = None
+    narrow = np.asarray(d).dtype == np.uint8
+    if narrow:
+        res["model_req"] = None      # (the uint8 variant holds other values than the case's small integers: oracle only)
     frozen_arg = C.freeze(arg)
     try:
         out, err = cube.rebin(arg, **kwargs), None
@@ -257,7 +260,8 @@ def run(case):
         # the result is a cube like any other: rebinning IT (same options) must again give the operation over the
         # blocks of its values, honouring its mask - the second step meets whatever the first left behind (lazy
         # graphs, masked-array views).  Only where every first-step value is defined.
-        if not fails and case["wseed"] % 3 != 0 and all(v is not None for v in values) and np.all(np.isfinite(got)):
+        if not fails and case["wseed"] % 3 != 0 and all(v is not None for v in values) and np.all(np.isfinite(got)) \
+                and not (narrow and case["op"] == "prod"):      # (a product of promoted integers overflows uint64 in numpy itself)
             ib2 = [max([q for q in divisors(n) if q < n] or [1]) if n > 1 else 1 for n in new_shape]
             if any(b > 1 for b in ib2):
                 m2 = None
